@@ -107,6 +107,18 @@ impl ShardedDirtyTracker {
         }
     }
 
+    /// Like `drain_for_table`, for writing the pages to the WAL: the table file's header page
+    /// (page 0: root page, row count, AUTO_INCREMENT counter, rightmost hint) is updated through
+    /// the raw storage and never marked dirty, so it is added whenever any page of the table is
+    /// logged. Without it a recovered table keeps a stale root page and row count.
+    pub fn drain_for_table_with_header(&self, table_id: u32) -> Vec<u32> {
+        let mut pages = self.drain_for_table(table_id);
+        if !pages.is_empty() && !pages.contains(&0) {
+            pages.insert(0, 0);
+        }
+        pages
+    }
+
     pub fn clear_for_table(&self, table_id: u32) {
         let mut shard = self.shard_for(table_id).lock();
         if let Some(pages) = shard.get_mut(&table_id) {
